@@ -170,6 +170,10 @@ class BaseBatch(abc.ABC):
             if response_map and self._client.strict:
                 raise exceptions.IdentityError(f"unexpected response found: {response_map.keys()}")
 
+            # a server may return the responses in any order: put them in the order the calls were made
+            call_order = {request.id: idx for idx, request in enumerate(batch_request) if request.id is not None}
+            batch_response._responses.sort(key=lambda response: call_order.get(response.id, len(call_order)))
+
 
 class Batch(BaseBatch):
     """
